@@ -79,6 +79,7 @@ func runKillCase(c *killCase) (impl, pred string) {
 	}
 	var pr *lcProcRunner
 	var launcher *plugin.Client
+	farPid := 0
 	switch c.launch {
 	case "cmd":
 		cfg.Cmd = cmd
@@ -96,6 +97,19 @@ func runKillCase(c *killCase) (impl, pred string) {
 			}
 			return pr, err
 		}
+	case "reattach-far":
+		// the plugin was launched by ANOTHER process: it is not a child of this host
+		det, derr := startDetachedPlugin(kc, wire, extra...)
+		if derr != nil {
+			return "setup-error", "FAIL:setup-detached"
+		}
+		defer det.stop()
+		farPid = det.rc.Pid
+		cfg.Reattach = det.rc
+		cfg.Plugins = cfg.VersionedPlugins[3]
+		cfg.VersionedPlugins = nil
+		cfg.UnixSocketConfig = nil
+		cfg.GRPCBrokerMultiplex = false
 	case "reattach":
 		launcher = plugin.NewClient(&plugin.ClientConfig{
 			HandshakeConfig: kitHandshake(), VersionedPlugins: kitHostSets(map[int]string{3: wire}, nil, nil),
@@ -137,6 +151,14 @@ func runKillCase(c *killCase) (impl, pred string) {
 	pid := 0
 	if cmd.Process != nil {
 		pid = cmd.Process.Pid
+	}
+	if farPid != 0 {
+		pid = farPid
+		// a reattached plugin that is alive is not reported as exited (before anything was done to it)
+		time.Sleep(300 * time.Millisecond)
+		if client.Exited() {
+			return "exited-while-running", "FAIL:reattached-plugin-reported-exited-while-running"
+		}
 	}
 	switch c.beh {
 	case "busy1000":
@@ -203,7 +225,7 @@ func runKillCase(c *killCase) (impl, pred string) {
 	exited := client.Exited()
 	dead := pid == 0 || !pidAlive(pid)
 	reaped := true
-	if pid != 0 && c.launch != "reattach" {
+	if pid != 0 && c.launch != "reattach" && c.launch != "reattach-far" {
 		_, err := os.Stat(fmt.Sprintf("/proc/%d", pid))
 		reaped = err != nil
 	}
@@ -297,6 +319,12 @@ func init() {
 			cases = append(cases, &killCase{"netrpc", "fast", "cmd", "single"})
 		}
 		cases = append(cases, &killCase{"netrpc", "fastlost", "cmd", "single"}, &killCase{"netrpc", "fastlost", "runner", "single"})
+		// reattached to a plugin that another process launched (not a child of this host)
+		for _, proto := range []string{"netrpc", "grpc"} {
+			cases = append(cases, &killCase{proto, "fast", "reattach-far", "single"}, &killCase{proto, "ignores", "reattach-far", "single"},
+				&killCase{proto, "ignores", "reattach-far", "concurrent"})
+			managed = append(managed, &killCase{proto, "ignores", "reattach-far", "cleanup"})
+		}
 		// a plugin that is busy (a request in flight) when Kill arrives and needs 1 s of clean-up of its own
 		for _, proto := range []string{"netrpc", "grpc", "grpcmux"} {
 			cases = append(cases, &killCase{proto, "busy1000", "cmd", "single"})
